@@ -341,7 +341,7 @@ def run(run):
     hv = evalrec.validate(run, he, name='helpers', kind='logical-through-reference')
     run.evaluations += len(he)
     run.notes['logical_through_reference_events'] = dict(hv)
-    if hv.get('ok', 0) < len(he) // 2:
+    if sum(n for k, n in hv.items() if k != 'open') < len(he) // 2:
         raise xl.MachineryError(f'logical-through-reference events: too few judged ({dict(hv)})')
     run.rule = ('18 conditions (constants, numbers, blank cell, references under 4 truth assignments, comparisons, nested AND/OR/NOT/IF, '
                 'error values) x 6 branch expressions (constants, references, SPY, nested IF with spies) in both branches and in the '
